@@ -59,15 +59,17 @@ var opNames = map[Op]string{
 // Term is an immutable DAG node.  W == 0 means Bool, otherwise a bit-vector
 // of width W.
 type Term struct {
-	ID   int
-	Op   Op
-	W    int
-	Args []*Term
-	Val  uint64 // OpConst (W<=64); Bool: 0/1
-	Name string // OpVar, OpUF
-	Hi   int    // OpExtract
-	Lo   int
-	size int // DAG-unaware node count estimate (capped)
+	ID    int
+	Op    Op
+	W     int
+	Args  []*Term
+	Val   uint64 // OpConst (W<=64); Bool: 0/1
+	Name  string // OpVar, OpUF
+	Hi    int    // OpExtract
+	Lo    int
+	size  int   // DAG-unaware node count estimate (capped)
+	bdep  []int // ids of Bool variables this term depends on (nil + bmany if too many)
+	bmany bool
 }
 
 // TermTable owns all terms of one worker.
@@ -78,6 +80,8 @@ type TermTable struct {
 	ufs   map[string]*ufDecl
 	True  *Term
 	False *Term
+
+	inSubst bool
 }
 
 type ufDecl struct {
@@ -111,9 +115,128 @@ func (tt *TermTable) mk(t *Term) *Term {
 			t.size = 1 << 30
 		}
 	}
+	if t.Op == OpVar && t.W == 0 {
+		t.bdep = []int{t.ID}
+	} else {
+		for _, a := range t.Args {
+			if a.bmany {
+				t.bmany = true
+				t.bdep = nil
+				break
+			}
+			t.bdep = mergeDeps(t.bdep, a.bdep)
+			if len(t.bdep) > 6 {
+				t.bmany = true
+				t.bdep = nil
+				break
+			}
+		}
+	}
 	tt.all = append(tt.all, t)
 	tt.byKey[k] = t
 	return t
+}
+
+func mergeDeps(a, b []int) []int {
+	if len(b) == 0 {
+		return a
+	}
+	if len(a) == 0 {
+		return b
+	}
+	out := make([]int, 0, len(a)+len(b))
+	i, j := 0, 0
+	for i < len(a) || j < len(b) {
+		switch {
+		case j >= len(b) || (i < len(a) && a[i] < b[j]):
+			out = append(out, a[i])
+			i++
+		case i >= len(a) || b[j] < a[i]:
+			out = append(out, b[j])
+			j++
+		default:
+			out = append(out, a[i])
+			i++
+			j++
+		}
+	}
+	return out
+}
+
+func (t *Term) dependsOn(id int) bool {
+	if t.bmany {
+		return true
+	}
+	for _, d := range t.bdep {
+		if d == id {
+			return true
+		}
+	}
+	return false
+}
+
+// Subst rebuilds t with the Bool variable v replaced by the constant val
+// (through the simplifying constructors).
+func (tt *TermTable) Subst(t *Term, v *Term, val bool, memo map[int]*Term, budget *int) *Term {
+	if t == v {
+		return tt.Bool(val)
+	}
+	if len(t.Args) == 0 || (!t.bmany && !t.dependsOn(v.ID)) {
+		return t
+	}
+	if r, ok := memo[t.ID]; ok {
+		return r
+	}
+	*budget--
+	if *budget < 0 {
+		return t
+	}
+	args := make([]*Term, len(t.Args))
+	changed := false
+	for k, a := range t.Args {
+		args[k] = tt.Subst(a, v, val, memo, budget)
+		if args[k] != a {
+			changed = true
+		}
+	}
+	r := t
+	if changed {
+		r = tt.rebuild(t, args)
+	}
+	memo[t.ID] = r
+	return r
+}
+
+func (tt *TermTable) rebuild(t *Term, a []*Term) *Term {
+	switch t.Op {
+	case OpUF:
+		return tt.UF(t.Name, t.W, a...)
+	case OpNot:
+		return tt.Not(a[0])
+	case OpAnd:
+		return tt.And(a[0], a[1])
+	case OpOr:
+		return tt.Or(a[0], a[1])
+	case OpIte:
+		return tt.Ite(a[0], a[1], a[2])
+	case OpEq:
+		return tt.Eq(a[0], a[1])
+	case OpBVNot:
+		return tt.BVNot(a[0])
+	case OpBVNeg:
+		return tt.BVNeg(a[0])
+	case OpBVUlt, OpBVUle, OpBVSlt, OpBVSle:
+		return tt.Cmp(t.Op, a[0], a[1])
+	case OpConcat:
+		return tt.Concat(a[0], a[1])
+	case OpExtract:
+		return tt.Extract(a[0], t.Hi, t.Lo)
+	case OpZExt:
+		return tt.ZExt(a[0], t.W)
+	case OpSExt:
+		return tt.SExt(a[0], t.W)
+	}
+	return tt.BV(t.Op, a[0], a[1])
 }
 
 func mask(w int) uint64 {
@@ -178,6 +301,32 @@ func (tt *TermTable) UF(name string, ret int, args ...*Term) *Term {
 				panic(engineError("UF " + name + " used with inconsistent argument widths"))
 			}
 		}
+	}
+	// lift a common ite condition out of the arguments: f(ite(c,a,b), x) = ite(c, f(a,x), f(b,x))
+	var cond *Term
+	okLift := false
+	for _, a := range args {
+		if a.Op == OpIte {
+			if cond == nil {
+				cond = a.Args[0]
+				okLift = true
+			} else if a.Args[0] != cond {
+				okLift = false
+				break
+			}
+		}
+	}
+	if okLift {
+		at := make([]*Term, len(args))
+		ae := make([]*Term, len(args))
+		for k, a := range args {
+			if a.Op == OpIte {
+				at[k], ae[k] = a.Args[1], a.Args[2]
+			} else {
+				at[k], ae[k] = a, a
+			}
+		}
+		return tt.Ite(cond, tt.UF(name, ret, at...), tt.UF(name, ret, ae...))
 	}
 	return tt.mk(&Term{Op: OpUF, W: ret, Name: name, Args: append([]*Term(nil), args...)})
 }
@@ -279,6 +428,73 @@ func (tt *TermTable) Ite(c, a, b *Term) *Term {
 	if c.Op == OpNot {
 		return tt.Ite(c.Args[0], b, a)
 	}
+	// contextual simplification: inside the then-branch the condition variable is true
+	if c.Op == OpVar && !tt.inSubst && (a.dependsOn(c.ID) || b.dependsOn(c.ID)) && a.size+b.size < 200000 {
+		tt.inSubst = true
+		budget := 20000
+		na := tt.Subst(a, c, true, map[int]*Term{}, &budget)
+		nb := tt.Subst(b, c, false, map[int]*Term{}, &budget)
+		tt.inSubst = false
+		if budget >= 0 && (na != a || nb != b) {
+			return tt.Ite(c, na, nb)
+		}
+	}
+	if a.W > 0 {
+		// ite(c, x|m, x) = x | ite(c, m, 0)   and   ite(c, x^y, x) = x ^ ite(c, y, 0)
+		for _, op := range []Op{OpBVOr, OpBVXor} {
+			if a.Op == op {
+				if a.Args[0] == b {
+					return tt.BV(op, b, tt.Ite(c, a.Args[1], tt.Zero(a.W)))
+				}
+				if a.Args[1] == b {
+					return tt.BV(op, b, tt.Ite(c, a.Args[0], tt.Zero(a.W)))
+				}
+			}
+			if b.Op == op {
+				if b.Args[0] == a {
+					return tt.BV(op, a, tt.Ite(c, tt.Zero(a.W), b.Args[1]))
+				}
+				if b.Args[1] == a {
+					return tt.BV(op, a, tt.Ite(c, tt.Zero(a.W), b.Args[0]))
+				}
+			}
+		}
+		// ite(c, 1_1, 0_1) over a 1-bit test collapses to the bit itself
+		if a.W == 1 && a.IsConst() && b.IsConst() && a.Val != b.Val {
+			if x, inv, ok := bitOfCond(c); ok {
+				if (a.Val == 1) != inv {
+					return x
+				}
+				return tt.BVNot(x)
+			}
+		}
+		// ite(c, one-hot constant, 0) = zeros ++ ite(c,1,0) ++ zeros
+		if a.W > 1 && a.W <= 64 && a.IsConst() && b.IsConst() && ((b.Val == 0 && bits.OnesCount64(a.Val) == 1) || (a.Val == 0 && bits.OnesCount64(b.Val) == 1)) {
+			k := bits.TrailingZeros64(a.Val | b.Val)
+			bit := tt.Ite(c, tt.Const(1, 1), tt.Const(1, 0))
+			if a.Val == 0 {
+				bit = tt.Ite(c, tt.Const(1, 0), tt.Const(1, 1))
+			}
+			var hi *Term
+			if k < a.W-1 {
+				hi = tt.Zero(a.W - 1 - k)
+			}
+			r := tt.Concat(hi, bit)
+			if k > 0 {
+				r = tt.Concat(r, tt.Zero(k))
+			}
+			return r
+		}
+	}
+	// factor a common half out of concatenations: ite(c, h1++l, h2++l) = ite(c,h1,h2)++l
+	if a.Op == OpConcat && b.Op == OpConcat {
+		if a.Args[1] == b.Args[1] && a.Args[0].W == b.Args[0].W {
+			return tt.Concat(tt.Ite(c, a.Args[0], b.Args[0]), a.Args[1])
+		}
+		if a.Args[0] == b.Args[0] && a.Args[1].W == b.Args[1].W {
+			return tt.Concat(a.Args[0], tt.Ite(c, a.Args[1], b.Args[1]))
+		}
+	}
 	// ite(c, x, ite(c, y, z)) = ite(c, x, z)
 	if b.Op == OpIte && b.Args[0] == c {
 		return tt.Ite(c, a, b.Args[2])
@@ -287,6 +503,27 @@ func (tt *TermTable) Ite(c, a, b *Term) *Term {
 		return tt.Ite(c, a.Args[1], b)
 	}
 	return tt.mk(&Term{Op: OpIte, W: a.W, Args: []*Term{c, a, b}})
+}
+
+// bitOfCond returns a 1-bit term x and inv such that c == (x == 1) xor inv,
+// if c is a test of a single bit.
+func bitOfCond(c *Term) (*Term, bool, bool) {
+	neg := false
+	if c.Op == OpNot {
+		neg = true
+		c = c.Args[0]
+	}
+	if c.Op != OpEq {
+		return nil, false, false
+	}
+	x, k := c.Args[0], c.Args[1]
+	if x.IsConst() {
+		x, k = k, x
+	}
+	if !k.IsConst() || x.W != 1 {
+		return nil, false, false
+	}
+	return x, (k.Val == 1) == neg, true
 }
 
 func (tt *TermTable) Eq(a, b *Term) *Term {
@@ -328,6 +565,23 @@ func (tt *TermTable) Eq(a, b *Term) *Term {
 	}
 	if a.IsConst() && b.Op == OpIte && iteOfConsts(b, 4) {
 		return tt.Ite(b.Args[0], tt.Eq(a, b.Args[1]), tt.Eq(a, b.Args[2]))
+	}
+	if a.W > 1 && (a.Op == OpConcat || b.Op == OpConcat) {
+		if r := tt.eqSegments(a, b); r != nil {
+			return r
+		}
+	}
+	if a.W == 1 && !a.IsConst() && !b.IsConst() {
+		// 1-bit equality in the canonical form (a xor b) == 0
+		x := tt.BV(OpBVXor, a, b)
+		if x.IsConst() {
+			return tt.Bool(x.Val == 0)
+		}
+		z := tt.Const(1, 0)
+		if x.ID > z.ID {
+			return tt.mk(&Term{Op: OpEq, W: 0, Args: []*Term{z, x}})
+		}
+		return tt.mk(&Term{Op: OpEq, W: 0, Args: []*Term{x, z}})
 	}
 	if a.ID > b.ID {
 		a, b = b, a
@@ -449,6 +703,23 @@ func (tt *TermTable) BV(op Op, a, b *Term) *Term {
 		if bones || a == b {
 			return a
 		}
+		if b.IsConst() && w <= 64 && !a.IsConst() {
+			// contiguous-ones mask: zeros ++ extract ++ zeros
+			m := b.Val
+			lo := bits.TrailingZeros64(m)
+			run := bits.TrailingZeros64(^(m >> uint(lo)))
+			if lo+run <= w && (m>>uint(lo))>>uint(run) == 0 && run > 0 {
+				var r *Term
+				if lo+run < w {
+					r = tt.Zero(w - lo - run)
+				}
+				r = tt.Concat(r, tt.Extract(a, lo+run-1, lo))
+				if lo > 0 {
+					r = tt.Concat(r, tt.Zero(lo))
+				}
+				return r
+			}
+		}
 		if r := tt.segBitwise(op, a, b); r != nil {
 			return r
 		}
@@ -469,28 +740,35 @@ func (tt *TermTable) BV(op Op, a, b *Term) *Term {
 		if a == b {
 			return tt.Zero(w)
 		}
-		// (x ^ y) ^ y = x
-		if a.Op == OpBVXor {
-			if a.Args[0] == b {
-				return a.Args[1]
-			}
-			if a.Args[1] == b {
-				return a.Args[0]
-			}
-			if b.IsConst() && a.Args[1].IsConst() {
-				return tt.BV(OpBVXor, a.Args[0], tt.Const(w, a.Args[1].Val^b.Val))
-			}
+		// same-condition ites combine; an ite is lifted over xor when that lets leaves cancel
+		if a.Op == OpIte && b.Op == OpIte && a.Args[0] == b.Args[0] {
+			return tt.Ite(a.Args[0], tt.BV(OpBVXor, a.Args[1], b.Args[1]), tt.BV(OpBVXor, a.Args[2], b.Args[2]))
 		}
-		if b.Op == OpBVXor {
-			if b.Args[0] == a {
-				return b.Args[1]
-			}
-			if b.Args[1] == a {
-				return b.Args[0]
-			}
+		if a.Op == OpIte && b.Op != OpIte && !isZero(a.Args[1]) && !isZero(a.Args[2]) && (b.IsConst() || xorShares(b, a.Args[1]) || xorShares(b, a.Args[2])) {
+			return tt.Ite(a.Args[0], tt.BV(OpBVXor, a.Args[1], b), tt.BV(OpBVXor, a.Args[2], b))
+		}
+		if b.Op == OpIte && a.Op != OpIte && !isZero(b.Args[1]) && !isZero(b.Args[2]) && (a.IsConst() || xorShares(a, b.Args[1]) || xorShares(a, b.Args[2])) {
+			return tt.Ite(b.Args[0], tt.BV(OpBVXor, a, b.Args[1]), tt.BV(OpBVXor, a, b.Args[2]))
 		}
 		if r := tt.segBitwise(op, a, b); r != nil {
 			return r
+		}
+		// a concatenation of single bits (bit-matrix transposition output) xor a word:
+		// distribute so that per-bit terms can cancel
+		if r := tt.xorBitConcat(a, b); r != nil {
+			return r
+		}
+		if r := tt.xorBitConcat(b, a); r != nil {
+			return r
+		}
+		// AC normalisation: flatten, cancel equal leaves, fold constants, sort by id
+		if a.Op == OpBVXor || b.Op == OpBVXor {
+			var leaves []*Term
+			leaves = xorLeaves(a, leaves, 0)
+			leaves = xorLeaves(b, leaves, 0)
+			if len(leaves) <= 24 {
+				return tt.xorOf(leaves, w)
+			}
 		}
 	case OpBVAdd:
 		if bz {
@@ -553,6 +831,259 @@ func (tt *TermTable) BV(op Op, a, b *Term) *Term {
 		a, b = b, a
 	}
 	return tt.mk(&Term{Op: op, W: w, Args: []*Term{a, b}})
+}
+
+func (tt *TermTable) xorBitConcat(c, x *Term) *Term {
+	if c.Op != OpConcat {
+		return nil
+	}
+	// only against words that slice for free (variables, constants, their extracts)
+	base := x
+	if base.Op == OpExtract {
+		base = base.Args[0]
+	}
+	if base.Op != OpVar && base.Op != OpConst {
+		return nil
+	}
+	segs := tt.segsOf(c, nil)
+	if len(segs) < 8 {
+		return nil
+	}
+	ones := 0
+	for _, s := range segs {
+		if s.w == 1 {
+			ones++
+		}
+	}
+	if ones*2 < len(segs) {
+		return nil
+	}
+	var r *Term
+	pos := c.W
+	for _, s := range segs {
+		xs := tt.Extract(x, pos-1, pos-s.w)
+		var p *Term
+		if s.t == nil {
+			p = xs
+		} else {
+			p = tt.BV(OpBVXor, s.t, xs)
+		}
+		r = tt.Concat(r, p)
+		pos -= s.w
+	}
+	return r
+}
+
+func isBitConcat(tt *TermTable, t *Term) bool {
+	if t.Op != OpConcat {
+		return false
+	}
+	segs := tt.segsOf(t, nil)
+	if len(segs) < 8 {
+		return false
+	}
+	ones := 0
+	for _, s := range segs {
+		if s.w == 1 {
+			ones++
+		}
+	}
+	return ones*2 >= len(segs)
+}
+
+// xorPlain: cancellation and sorting only (no absorption), used to terminate xorOf.
+func (tt *TermTable) xorPlain(leaves []*Term, w int) *Term {
+	var c uint64
+	cnt := map[int]int{}
+	byID := map[int]*Term{}
+	for _, l := range leaves {
+		if l.IsConst() && w <= 64 {
+			c ^= l.Val
+			continue
+		}
+		cnt[l.ID]++
+		byID[l.ID] = l
+	}
+	var ids []int
+	for id, n := range cnt {
+		if n%2 == 1 {
+			ids = append(ids, id)
+		}
+	}
+	sort.Ints(ids)
+	var r *Term
+	for _, id := range ids {
+		if r == nil {
+			r = byID[id]
+		} else {
+			r = tt.mk(&Term{Op: OpBVXor, W: w, Args: []*Term{r, byID[id]}})
+		}
+	}
+	if r == nil {
+		if w <= 64 {
+			return tt.Const(w, c)
+		}
+		return tt.Zero(w)
+	}
+	if c != 0 && w <= 64 {
+		r = tt.mk(&Term{Op: OpBVXor, W: w, Args: []*Term{r, tt.Const(w, c)}})
+	}
+	return r
+}
+
+func flatten(ts []*Term) []*Term {
+	var out []*Term
+	for _, t := range ts {
+		out = xorLeaves(t, out, 0)
+	}
+	return out
+}
+
+func isZero(t *Term) bool { return t.IsConst() && t.Val == 0 }
+
+// xorLeaves flattens a xor tree (bounded depth).
+func xorLeaves(t *Term, out []*Term, depth int) []*Term {
+	if t.Op == OpBVXor && depth < 12 {
+		out = xorLeaves(t.Args[0], out, depth+1)
+		return xorLeaves(t.Args[1], out, depth+1)
+	}
+	return append(out, t)
+}
+
+func xorShares(x, y *Term) bool {
+	lx := xorLeaves(x, nil, 8)
+	ly := xorLeaves(y, nil, 8)
+	if len(lx) > 12 || len(ly) > 12 {
+		return false
+	}
+	for _, p := range lx {
+		if p.IsConst() {
+			continue
+		}
+		for _, q := range ly {
+			if p == q {
+				return true
+			}
+		}
+	}
+	return false
+}
+
+// xorOf rebuilds a canonical xor of leaves: equal leaves cancel, constants fold.
+func (tt *TermTable) xorOf(leaves []*Term, w int) *Term {
+	var c uint64
+	cnt := map[int]int{}
+	byID := map[int]*Term{}
+	for _, l := range leaves {
+		if l.IsConst() && w <= 64 {
+			c ^= l.Val
+			continue
+		}
+		cnt[l.ID]++
+		byID[l.ID] = l
+	}
+	var ids []int
+	for id, n := range cnt {
+		if n%2 == 1 {
+			ids = append(ids, id)
+		}
+	}
+	sort.Ints(ids)
+	// ites over the same condition combine into one
+	byCond := map[int][]*Term{}
+	for _, id := range ids {
+		if l := byID[id]; l.Op == OpIte {
+			byCond[l.Args[0].ID] = append(byCond[l.Args[0].ID], l)
+		}
+	}
+	for _, group := range byCond {
+		if len(group) < 2 {
+			continue
+		}
+		var at, ae []*Term
+		drop := map[int]bool{}
+		for _, l := range group {
+			at = append(at, l.Args[1])
+			ae = append(ae, l.Args[2])
+			drop[l.ID] = true
+		}
+		var rest []*Term
+		for _, id := range ids {
+			if !drop[id] {
+				rest = append(rest, byID[id])
+			}
+		}
+		if c != 0 && w <= 64 {
+			rest = append(rest, tt.Const(w, c))
+		}
+		m := tt.Ite(group[0].Args[0], tt.xorOf(flatten(at), w), tt.xorOf(flatten(ae), w))
+		rest = append(rest, xorLeaves(m, nil, 0)...)
+		if len(rest) == 1 {
+			return rest[0]
+		}
+		return tt.xorOf(rest, w)
+	}
+	// bit-matrix concatenations absorb each other and plain words pointwise
+	var acc *Term
+	var others []int
+	for _, id := range ids {
+		l := byID[id]
+		if isBitConcat(tt, l) {
+			if acc == nil {
+				acc = l
+				continue
+			}
+			if m := tt.segBitwise(OpBVXor, acc, l); m != nil {
+				acc = m
+				continue
+			}
+		}
+		others = append(others, id)
+	}
+	if acc != nil && (len(others) < len(ids)-1 || true) {
+		var keep []int
+		for _, id := range others {
+			if isBitConcat(tt, acc) {
+				if m := tt.xorBitConcat(acc, byID[id]); m != nil {
+					acc = m
+					continue
+				}
+			}
+			keep = append(keep, id)
+		}
+		if len(keep) < len(ids)-1 {
+			// something was absorbed: rebuild from the remaining leaves plus acc
+			rest := xorLeaves(acc, nil, 0)
+			for _, id := range keep {
+				rest = append(rest, byID[id])
+			}
+			if c != 0 && w <= 64 {
+				rest = append(rest, tt.Const(w, c))
+			}
+			if len(rest) == 1 {
+				return rest[0]
+			}
+			return tt.xorPlain(rest, w)
+		}
+	}
+	var r *Term
+	for _, id := range ids {
+		if r == nil {
+			r = byID[id]
+		} else {
+			r = tt.mk(&Term{Op: OpBVXor, W: w, Args: []*Term{r, byID[id]}})
+		}
+	}
+	if r == nil {
+		if w <= 64 {
+			return tt.Const(w, c)
+		}
+		return tt.Zero(w)
+	}
+	if c != 0 && w <= 64 {
+		r = tt.mk(&Term{Op: OpBVXor, W: w, Args: []*Term{r, tt.Const(w, c)}})
+	}
+	return r
 }
 
 // iteOfConsts reports whether a is an ite tree (depth <= d) with constant leaves.
@@ -733,9 +1264,7 @@ func (tt *TermTable) Extract(a *Term, hi, lo int) *Term {
 	case OpBVNot:
 		return tt.BVNot(tt.Extract(a.Args[0], hi, lo))
 	case OpIte:
-		if a.Args[1].IsConst() || a.Args[2].IsConst() {
-			return tt.Ite(a.Args[0], tt.Extract(a.Args[1], hi, lo), tt.Extract(a.Args[2], hi, lo))
-		}
+		return tt.Ite(a.Args[0], tt.Extract(a.Args[1], hi, lo), tt.Extract(a.Args[2], hi, lo))
 	case OpBVAdd, OpBVSub, OpBVMul:
 		if lo == 0 {
 			return tt.BV(a.Op, tt.Extract(a.Args[0], hi, 0), tt.Extract(a.Args[1], hi, 0))
@@ -846,8 +1375,12 @@ func (tt *TermTable) segBitwise(op Op, a, b *Term) *Term {
 				p = pa
 			}
 		default:
-			// both non-zero: not a pure (dis)assembly pattern
-			return nil
+			// both non-zero: combine single bits pointwise (bit-matrix form), otherwise
+			// this is not a pure (dis)assembly pattern
+			if w != 1 {
+				return nil
+			}
+			p = tt.BV(op, pa, pb)
 		}
 		pieces++
 		if pieces > 64 {
@@ -876,6 +1409,59 @@ func (tt *TermTable) segBitwise(op Op, a, b *Term) *Term {
 	}
 	if res == nil || res.W != a.W {
 		return nil
+	}
+	return res
+}
+
+// eqSegments splits an equality of concatenations at common boundaries.
+func (tt *TermTable) eqSegments(a, b *Term) *Term {
+	sa := tt.segsOf(a, nil)
+	sb := tt.segsOf(b, nil)
+	if len(sa)+len(sb) > 200 {
+		return nil
+	}
+	piece := func(s seg, hi, lo int) *Term {
+		if s.t == nil {
+			return tt.Zero(hi - lo + 1)
+		}
+		return tt.Extract(s.t, hi, lo)
+	}
+	res := tt.True
+	ia, ib := 0, 0
+	offA, offB := 0, 0 // bits already consumed from the top of the current segment
+	for ia < len(sa) && ib < len(sb) {
+		ra, rb := sa[ia].w-offA, sb[ib].w-offB
+		w := ra
+		if rb < w {
+			w = rb
+		}
+		pa := piece(sa[ia], sa[ia].w-offA-1, sa[ia].w-offA-w)
+		pb := piece(sb[ib], sb[ib].w-offB-1, sb[ib].w-offB-w)
+		var e *Term
+		if pa.W > 1 && (pa.Op == OpConcat || pb.Op == OpConcat) {
+			// avoid unbounded recursion: compare pieces structurally
+			if pa == pb {
+				e = tt.True
+			} else {
+				e = tt.mk(&Term{Op: OpEq, W: 0, Args: []*Term{pa, pb}})
+			}
+		} else {
+			e = tt.Eq(pa, pb)
+		}
+		res = tt.And(res, e)
+		if res.IsFalse() {
+			return res
+		}
+		offA += w
+		offB += w
+		if offA == sa[ia].w {
+			ia++
+			offA = 0
+		}
+		if offB == sb[ib].w {
+			ib++
+			offB = 0
+		}
 	}
 	return res
 }
